@@ -45,6 +45,9 @@ ASSUMPTIONS = [
 FLOORS = {"op_checked": 2500, "read_bytes_compared": 500,
           "write_conservation": 800, "multi_buffer_op": 300,
           "faulty_op": 200, "struct_field": 150, "link_op": 100}
+ANCHORS = [("rig.machine_control.machine_controller", "MachineController.fill",
+            {"unaligned_fill_as_write": "self.write(address, data, x, y, p)",
+             "aligned_fill": "SCPCommands.fill, address, data, size)"})]
 SHARDS = {"quick": 16, "thorough": 64}
 CLASSES = ["plain", "buffers", "faulty", "structs", "links", "windows"]
 BUFS = [16, 120, 128, 242, 243, 248, 255, 256, 499, 504, 512]
